@@ -229,6 +229,8 @@ pub struct Profile {
     pub p_custom_which: usize,
     /// % of cases run with a custom `retry_options` function (resumed run)
     pub p_resume: usize,
+    /// % of cases that are one wide feature (more scenarios than the default limit of 64)
+    pub p_wide: usize,
     pub p_sleep: usize,
     pub p_filter: usize,
     /// Percentage of callbacks emitting tracing log lines (vt only).
@@ -263,6 +265,7 @@ impl Profile {
             p_empty: 10,
             p_custom_which: 8,
             p_resume: 6,
+            p_wide: 0,
             p_sleep: 0,
             p_filter: 15,
             p_logs: 0,
@@ -359,6 +362,7 @@ impl Profile {
                 p_ff: 5,
                 p_parse_err: 3,
                 limits: &[Some(1), Some(2), Some(3), Some(5), Some(64), None],
+                p_wide: 2,
                 ..g
             },
             // serial isolation
@@ -790,11 +794,42 @@ pub fn generate(profile: &Profile, seed: u64, index: u64) -> CaseSpec {
         }
     }
 
+    // a wide run: one feature with more scenarios than the default limit of 64, all ready at once and
+    // each parked in its only step, under an explicitly unlimited / the default / a small limit
+    let mut plan = g.plan;
+    let mut pend = pend;
+    if profile.p_wide > 0 {
+        let mut r5 = Rng::new(seed.wrapping_mul(0x51ED_270B).wrapping_add(index) ^ 0xA1DE);
+        if pct(&mut r5, profile.p_wide) {
+            let n = r5.range(66, 90) as u32;
+            let scenarios = (0..n)
+                .map(|i| {
+                    let unit = format!("S:s{i}:0");
+                    plan.insert(unit.clone(), vec![Behav { gates_before: 1, ..Behav::PASS }]);
+                    ScSpec {
+                        uid: i,
+                        name: format!("sc s{i}"),
+                        tags: Vec::new(),
+                        steps: vec![StepSpec { kw: (i % 3) as u8, text: format!("step s{i} i0"), kind: StepKind::Run, unit, doc: None, table: None }],
+                    }
+                })
+                .collect();
+            items = vec![Item::Feat(FeatSpec { uid: 0, name: "feat f0".into(), tags: Vec::new(), bg: Vec::new(), scenarios, rules: Vec::new(), path: Some("/virt/f0.feature".into()) })];
+            pend = vec![Vec::new(), Vec::new()];
+            cfg = Cfg::default();
+            match r5.below(3) {
+                0 => cfg.b_concurrency = Some(None),
+                1 => {}
+                _ => cfg.cli_concurrency = Some(r5.range(2, 70)),
+            }
+        }
+    }
+
     CaseSpec {
         items,
         pend,
         cfg,
-        plan: g.plan,
+        plan,
         world_plan,
         world_gates: if gates_on && r.chance(1, 3) { 1 } else { 0 },
         policy,
